@@ -119,6 +119,20 @@ def concealAccesses (s : DecSt) (lowFirst : Bool) : List Acc × Bool × Int × I
         wrt .pitchL 0 SilkSynth.maxNbSubfr,                                                    -- :425-427
        false, lp.2.1, lp.2.2, lagEnd)
 
+/-- Initialised-before-read for `sLTP_Q14` in silk_PLC_conceal: PLC.c:329-331 writes `[wlo, ltp_mem_length)` with
+    `wlo = ltp_mem_length - lag₀ - 2`; sub-frame `k` reads from `pos - lag_k - 2` up to just below the element it
+    writes (needs `lag_k ≥ 3`), with the drifting lag. -/
+def concealInitLoop (c : Cfg) (wlo : Int) : Nat → Int → Int → Bool
+  | 0, _, _ => true
+  | n + 1, pos, p =>
+    let lag := rshiftRound p 8
+    let p2 := min (smlawb p p SilkSynth.pitchDriftFacQ16) (SilkSynth.maxPitchLagMs * c.fsKHz * 256)
+    decide (wlo ≤ pos - (lag + SilkSynth.ltpOrder / 2)) && decide (3 ≤ lag) && concealInitLoop c wlo n (pos + c.subfr) p2
+
+def concealInitOk (s : DecSt) : Bool :=
+  let c := s.cfg
+  concealInitLoop c (c.ltpMem - (rshiftRound s.pitchLQ8 8 + SilkSynth.ltpOrder / 2)) c.nbSubfr c.ltpMem s.pitchLQ8
+
 /-! ### silk_PLC_update (PLC.c:114-189) -/
 
 def sumRange (l : List Int) (off : Int) (n : Nat) : Int :=
